@@ -150,7 +150,7 @@ def judge(ctx, cases):
         case = json.loads(lines[b["i"] - 1])
         for api in b["as"]:
             rec = {"api": api, "kind": b["kind"], "loc": b["loc"], "witness": to_text(case["b"]), "case": {"b": case["b"]},
-                   "detail": b.get("m") or None}
+                   "detail": b.get("m") or None, "mark": b.get("mark") or ""}
             if b["kind"] == "rejects-valid":
                 need.append(rec)
             recs.append(rec)
@@ -168,7 +168,7 @@ def judge(ctx, cases):
     for r in recs:
         if r["loc"] is None:
             continue
-        r["locus"] = locus_str(r["loc"])
+        r["locus"] = locus_str(r["loc"]) + ("@" + r["mark"] if r["mark"] else "")
         if r["api"] in STRICT:
             out.append(r)
         else:
@@ -234,6 +234,13 @@ def main(ctx):
         "tokenizer are reported as model_drift (C03's systemic known findings)",
         "float64 neighbours/midpoints are computed by the harness from the RETURNED float; time.Time is projected to seconds/millis",
         "every call uses a fresh sen.Parser with AddMongoFuncs and f(args...) = [\"f\", args...] registered"]
+
+    wit = {}
+    for r in recs:
+        k = "%s %s %s" % (r["api"], r["kind"], r["locus"])
+        if k not in wit or verif.wsize(r["witness"]) < verif.wsize(wit[k]):
+            wit[k] = r["witness"]
+    ctx.cov["deviation_witnesses"] = dict(sorted(wit.items()))
 
     def confirm(rec):
         again = judge(ctx, [rec["case"]])
